@@ -258,7 +258,8 @@ class LoopContracts:
 
     contracts: list with one entry per loop in the body, in text order; each
     entry is the contract text to insert after the loop header's closing
-    parenthesis (for `do` loops: after the trailing `while (...)`), or None to
+    parenthesis (for `do` loops: between `do` and the body; the invariant is then
+    evaluated at the start of the body), or None to
     leave the loop without contract (it is then unwound).  The number of loops
     found must equal len(contracts), otherwise ExtractionDrift: an added or
     removed loop is never silently left without its invariant.  Header *text*
@@ -276,7 +277,7 @@ class LoopContracts:
         for m in re.finditer(r"\b(for|while|do)\b", text):
             kind = m.group(1)
             if kind == "do":
-                heads.append(["do", None, m.start()])
+                heads.append(["do", None, m.start(), m.end()])
                 continue
             k = m.end()
             while text[k].isspace():
@@ -296,7 +297,7 @@ class LoopContracts:
                     # attach to the innermost open do without tail
                     for h in reversed(heads):
                         if h[0] == "do" and h[1] is None:
-                            h[1] = e + 1
+                            h[1] = h[3]     # CBMC wants a do-loop's contract between `do` and the body
                             break
                     continue
             heads.append([kind, e + 1, m.start()])
